@@ -9,7 +9,7 @@
 From Coq Require Import List Arith NArith ZArith Bool Lia.
 Import ListNotations.
 Require Import PV.Stack.Model PV.Stack.Proofs PV.Comb.PState PV.Comb.Bytes PV.Comb.Prog PV.Comb.Exec
-               PV.Comb.Frame PV.Comb.Contracts PV.Comb.CallLimit PV.Gen.Rel PV.Gen.Cong.
+               PV.Comb.Frame PV.Comb.Contracts PV.Comb.CallLimit PV.Peg.Ast PV.Gen.GenCompile PV.Gen.Rel PV.Gen.Cong.
 
 Arguments Nat.sub : simpl never.
 Arguments Nat.ltb : simpl never.
@@ -285,6 +285,20 @@ Definition fails_clean (x : prog) : Prop :=
   forall s s' a, wf s -> Inv (stack s) a -> limit s = None -> runs x s (RErr s') ->
     pos s' = pos s /\ length (queue s') = length (queue s) /\ cache (stack s') = cache (stack s).
 
+(* a skip that is the identity can be added on either side of a program *)
+Lemma then_skip_r k q t r a : skip_id k -> wf t -> Inv (stack t) a -> atomicity t <> NonAtomic ->
+  runs q t r -> runs (PAndThen q k) t r.
+Proof.
+  intros Hk W I HA Hq. destruct r as [t1|t1|kk|].
+  - eapply runs_then_ok; [exact Hq|]. apply Hk.
+    pose proof (runs_post _ _ _ _ W I Hq) as P. cbn in P. destruct P as (F & _). rewrite (f_at _ _ F). exact HA.
+  - apply runs_then_stop; auto. discriminate.
+  - apply runs_then_stop; auto. discriminate.
+  - destruct Hq as [N _]. congruence.
+Qed.
+Lemma then_skip_l k q t r : skip_id k -> atomicity t <> NonAtomic -> runs q t r -> runs (PAndThen k q) t r.
+Proof. intros Hk HA Hq. eapply runs_then_ok; [apply Hk; exact HA|exact Hq]. Qed.
+
 Section RepAtomic.
 Variable x k : prog.
 Hypothesis Hk : skip_id k.
@@ -406,5 +420,47 @@ Proof.
 Qed.
 
 End RepAtomic.
+
+(* ---------- the flattened chains of generate_expr against the nested shapes of the VM ---------- *)
+Lemma assoc4 X a k b : peq (PAndThen (PAndThen (PAndThen X a) k) b) (PAndThen X (PAndThen (PAndThen a k) b)).
+Proof.
+  intros s r H. destruct (runs_then_inv _ _ _ _ H) as [(s3 & H1 & Hb)|[H1 Hn]].
+  - destruct (runs_then_inv _ _ _ _ H1) as [(s2 & H2 & Hk)|[H2 Hn]]; [|exfalso; eapply Hn; eauto].
+    destruct (runs_then_inv _ _ _ _ H2) as [(s1 & HX & Ha)|[HX Hn]]; [|exfalso; eapply Hn; eauto].
+    eapply runs_then_ok; [exact HX|]. eapply runs_then_ok; [|exact Hb]. eapply runs_then_ok; eauto.
+  - destruct (runs_then_inv _ _ _ _ H1) as [(s2 & H2 & Hk)|[H2 _]].
+    + destruct (runs_then_inv _ _ _ _ H2) as [(s1 & HX & Ha)|[HX Hn']]; [|exfalso; eapply Hn'; eauto].
+      eapply runs_then_ok; [exact HX|]. apply runs_then_stop; auto. eapply runs_then_ok; eauto.
+    + destruct (runs_then_inv _ _ _ _ H2) as [(s1 & HX & Ha)|[HX _]].
+      * eapply runs_then_ok; [exact HX|]. apply runs_then_stop; auto. apply runs_then_stop; auto.
+      * apply runs_then_stop; auto.
+Qed.
+
+Lemma eqv_seq A p q : eqv A p q -> eqv A (PSequence p) (PSequence q).
+Proof. intros H. apply sim_eqv. intros m. apply cong_seq'. now apply eqv_sim. Qed.
+Lemma eqv_else A p q p' q' : eqv A p p' -> eqv A q q' -> eqv A (POrElse p q) (POrElse p' q').
+Proof. intros H1 H2. apply sim_eqv. intros m. apply cong_else'; now apply eqv_sim. Qed.
+
+Section Flat.
+Variable v : oexpr -> prog.
+Variable vsk : prog.
+Hypothesis v_seq : forall l r, v (OSeq l r) = PSequence (PAndThen (PAndThen (v l) vsk) (v r)).
+Hypothesis v_cho : forall l r, v (OChoice l r) = POrElse (v l) (v r).
+Definition linkv (acc x : prog) : prog := PAndThen (PAndThen acc vsk) x.
+
+Lemma seq_flat A : forall r acc,
+  eqv A (PSequence (seq_chain v linkv acc r)) (PSequence (PAndThen (PAndThen acc vsk) (v r))).
+Proof.
+  induction r; intros acc; try (cbn [seq_chain]; apply eqv_refl).
+  cbn [seq_chain]. eapply eqv_trans; [apply IHr2|]. unfold linkv. rewrite v_seq.
+  eapply eqv_trans; [apply eqv_seq, (eqv_of_peq A), assoc4|]. apply seq_absorb.
+Qed.
+
+Lemma cho_flat A : forall r acc, eqv A (cho_chain v POrElse acc r) (POrElse acc (v r)).
+Proof.
+  induction r; intros acc; try (cbn [cho_chain]; apply eqv_refl).
+  cbn [cho_chain]. eapply eqv_trans; [apply IHr2|]. rewrite v_cho. apply (eqv_of_peq A), else_assoc.
+Qed.
+End Flat.
 
 End Laws.
